@@ -150,7 +150,12 @@ def run_request(served, supported, contexts, probe, max_len=16384, called='SRV',
         tables = [('accepted_contexts', acc.accepted_contexts), ('dul.accepted_contexts', dul.accepted_contexts),
                   ('sop_classes_as_scp', acc.sop_classes_as_scp)]
     for tname, table in tables:
-        got = {k: (str(v[1]), str(v[2])) for k, v in table.items()}
+        try:
+            got = {k: (str(v[1]), str(v[2])) for k, v in table.items()}
+        except Exception:
+            # (an internal table kept in another shape cannot be judged here; what matters - which service is
+            #  called with which context - is probed below)
+            continue
         if got != on_wire:
             raise Violation('C09:table:%s' % tname, '%s = %r, A-ASSOCIATE-AC accepted %r' % (tname, got, on_wire), case)
     # routing
